@@ -17,6 +17,7 @@ The small Lean heap model (Model/Heap.lean, drv_c03) is exercised on `_conformin
 "arguments unchanged" and "which result components alias an argument" are compared with the
 implementation (aliasing by `np.shares_memory` / `is`).
 """
+import ast
 import copy
 import datetime
 import hashlib
@@ -234,6 +235,29 @@ def install_assumption_checks():
 install_assumption_checks()
 
 
+# ---- the hand-written table ENTRY_POINTS of the translator (registry operation -> library functions it enters) is
+# cross-checked dynamically: one scenario per operation runs under sys.setprofile and records which functions of the
+# package were entered
+TRACE_TASKS = set()          # (operation, seed) of the scenarios to trace; filled before the workers are forked
+ENTERED = []                 # (file relative to the repo, code name, first line) entered during the traced call
+
+
+PROFILE_BUDGET = [0]
+
+
+def _profile(frame, event, arg):
+    if event == "call":
+        PROFILE_BUDGET[0] -= 1
+        if PROFILE_BUDGET[0] <= 0:
+            import sys
+            sys.setprofile(None)       # the entry functions are entered early; do not slow the rest of the call down
+            return
+        fn = frame.f_code.co_filename
+        i = fn.rfind("/bermuda/")
+        if i >= 0:
+            ENTERED.append((fn[i + 1:], frame.f_code.co_name, frame.f_code.co_firstlineno))
+
+
 def check_separated(args):
     """the hypothesis `separated` of Properties/C03.frame_protected_reachable: an unprotected argument (a data
     frame) is not a protected argument, nor an attribute / entry of one (identity of objects)"""
@@ -244,16 +268,23 @@ def check_separated(args):
     for a in args:
         if isinstance(a, pd.DataFrame):
             continue
-        inner = [a]
-        if isinstance(a, Metadata):
-            inner += [a.details, a.loss_details] + list(a.details.values()) + list(a.loss_details.values())
-        elif isinstance(a, (list, tuple)):
-            inner += list(a)
-        elif isinstance(a, dict):
-            inner += list(a.values())
-        for x in inner:
+        # everything reachable from the protected argument (containers, Triangle -> cells -> Cell -> values / metadata
+        # -> details, instance dicts), by identity
+        seen, stack = set(), [a]
+        while stack and len(seen) < 20000:
+            x = stack.pop()
+            if id(x) in seen or isinstance(x, (str, bytes, int, float, bool, type(None), datetime.date, np.ndarray)):
+                continue
+            seen.add(id(x))
             if any(x is f for f in frames):
-                return f"a data frame argument is (inside) the argument {type(a).__name__}"
+                return f"a data frame argument is reachable from the argument {type(a).__name__}"
+            if isinstance(x, dict):
+                stack.extend(x.keys())
+                stack.extend(x.values())
+            elif isinstance(x, (list, tuple, set, frozenset)):
+                stack.extend(x)
+            elif isinstance(x, (Triangle, Cell, Metadata)) or hasattr(x, "__dict__"):
+                stack.extend(getattr(x, "__dict__", {}).values())
     return None
 
 
@@ -778,7 +809,14 @@ def _(rng, t): return (lambda a: a.to_chain_ladder(), [t], {})
 def _(rng, t):
     def f(a):
         m = bermuda.Matrix.from_triangle(a) if hasattr(bermuda.Matrix, "from_triangle") else bermuda.io.triangle_to_matrix(a)
-        r = bermuda.RichMatrix.from_triangle(a) if hasattr(bermuda.RichMatrix, "from_triangle") else None
+        if hasattr(bermuda.RichMatrix, "from_triangle"):
+            r = bermuda.RichMatrix.from_triangle(a)
+        else:
+            from bermuda.io.rich_matrix import triangle_to_rich_matrix
+            try:
+                r = triangle_to_rich_matrix(a)
+            except Exception as e:  # noqa: BLE001  (the argument must be intact after a raise as well)
+                r = type(e).__name__
         return (m, r)
     return (f, [t], {})
 
@@ -877,6 +915,99 @@ def _(rng, t):
 
 
 # --- plot ---------------------------------------------------------------------------------------
+# ---- audit follow-up: the rest of the public surface (Set mixins of collections.abc.Set, ==, hash, in, sum,
+# non-slice indexing, TriangleSlice, make_pred_triangle, Metadata helpers, cached accessors, deprecated json loaders)
+
+@op("Triangle set operators (| & - ^ <= isdisjoint)", variant=True)
+def _(rng, t):
+    other = other_like(rng, t)
+    return (lambda a, b: (a | b, a & b, a - b, a ^ b, a <= b, a >= b, a < b, a.isdisjoint(b)), [t, other], {})
+
+
+@op("Triangle.__eq__ / __hash__ / __contains__ / len / iter", variant=True)
+def _(rng, t):
+    return (lambda a, b, c: (a == b, a != b, hash(a), c in a, len(a), [x for x in a][:2], repr(a)[:10]),
+            [t, Triangle(list(t.cells)), t.cells[0]], {})
+
+
+@op("sum(triangles) / __radd__", variant=True)
+def _(rng, t):
+    return (lambda a, b: sum([a, b]), [t, other_like(rng, t).derive_metadata(id=98)], {})
+
+
+@op("Triangle.__getitem__(int / 3 indices)", variant=True)
+def _(rng, t):
+    c = t.cells[len(t.cells) // 2]
+
+    def run(a, md, ps, ev):
+        return (a[0], a[-1], a[ps, ev, md], a[:, ev, :], a[ps:, :, md], a[:, :ev, :])
+    return (run, [t, c.metadata, c.period_start, c.evaluation_date], {})
+
+
+@op("TriangleSlice construction / indexing", variant=True)
+def _(rng, t):
+    from bermuda.triangle import TriangleSlice
+    first = first_slice(t)
+    c = first.cells[0]
+
+    def run(cells, ps, ev):
+        s_ = TriangleSlice(cells)
+        return (s_, s_[0], s_[1:], s_[ps, ev], s_[:, ev], s_[ps:, :])
+    return (run, [list(first.cells), c.period_start, c.evaluation_date], {})
+
+
+@op("make_pred_triangle", variant=True)
+def _(rng, t):
+    mds = list(t.metadata)
+    lo = min(c.period_start for c in t.cells)
+    hi = max(c.period_end for c in t.cells)
+    res = (int(t.period_resolution), "month")
+    return (lambda m, a, b: U.make_pred_triangle(m, a, b, res, res, max_dev_lag=(2 * res[0], "month"),
+                                                 statics_fn=lambda cell: {"earned_premium": 1.0}),
+            [mds, lo, hi], {})
+
+
+@op("common_metadata / metadata_diff / Triangle.common_metadata / metadata_differences", variant=True)
+def _(rng, t):
+    from bermuda.base.metadata import common_metadata, metadata_diff
+    mds = list(t.metadata)
+    m1, m2 = mds[0], mds[-1].__class__(**{**mds[-1].as_dict(), "details": {**mds[-1].details, "extra": 1}})
+
+    def run(a, x, y):
+        return (common_metadata(x, y), metadata_diff(x, y), a.common_metadata, a.metadata_differences,
+                x.as_dict(), x.as_flat_dict(), hash(x), x == y, x < y)
+    return (run, [t, m1, m2], {})
+
+
+@op("Triangle cached accessors (second read after a derived triangle was built)", variant=True)
+def _(rng, t):
+    def run(a):
+        first = (a.slices, a.periods, a.fields, a.evaluation_dates, a.dev_lags(), a.right_edge, a.is_incremental,
+                 a.is_disjoint, a.is_multi_slice, a.has_consistent_currency, a.has_consistent_risk_basis,
+                 a.has_consistent_values_shapes, a.is_right_edge_ragged, a.num_samples, a.evaluation_date,
+                 a.experience_gaps, a.field_cell_counts, a.field_slice_counts, a.period_rows, a.slice_period_rows)
+        derived = a.derive_metadata(country="FR")
+        return (first, derived.slices, a.slices, a.periods, a.field_slice_counts, list(a.period_rows)[:1])
+    return (run, [t], {})
+
+
+@op("monthly_ep_to_quarterly_ep / policy_years_covered", res=3, basis="cum", variant=True)
+def _(rng, t):
+    from bermuda.utils.basis import monthly_ep_to_quarterly_ep, policy_years_covered
+    first = first_slice(t)
+    pattern = {D(2001, m, 1): 1.0 / 12 for m in range(1, 13)}
+    return (lambda a, p, o: (policy_years_covered(a, o), monthly_ep_to_quarterly_ep(p, a)),
+            [first, pattern, D(2000, 1, 1)], {})
+
+
+@op("triangle_json_load / triangle_json_loads (deprecated aliases)", variant=True)
+def _(rng, t):
+    from bermuda.io.json import triangle_json_load, triangle_json_loads
+    from bermuda.io.json import triangle_to_json
+    text = triangle_to_json(t)
+    return (lambda s_: (triangle_json_loads(s_), triangle_json_load(_io.StringIO(s_))), [text], {})
+
+
 @op("build_plot_data")
 def _(rng, t): return (lambda a: P.build_plot_data(a), [t], {})
 
@@ -979,7 +1110,7 @@ class Scenario:
             freeze(obj)
         self.alive.append((label, obj))
 
-    def call(self, label, build, rng, t, case, repeat=1):
+    def call(self, label, build, rng, t, case, repeat=1, trace=False):
         try:
             with warnings.catch_warnings():
                 warnings.simplefilter("ignore")
@@ -997,7 +1128,16 @@ class Scenario:
         try:
             with warnings.catch_warnings():
                 warnings.simplefilter("ignore")
-                res = fn(*args, **kwargs)
+                if trace:
+                    import sys
+                    PROFILE_BUDGET[0] = 30000
+                    sys.setprofile(_profile)
+                    try:
+                        res = fn(*args, **kwargs)
+                    finally:
+                        sys.setprofile(None)
+                else:
+                    res = fn(*args, **kwargs)
                 for _ in range(repeat - 1):
                     # the SAME objects once more: state carried from the first call (caches, consumed
                     # defaults, arrays handed back) must not reach the arguments either
@@ -1060,7 +1200,8 @@ def run_scenario(ctx, name, shape, position, seed, readonly):
         if outcome == "returned" and isinstance(res, Triangle) and len(res) > 0:
             t = res
     slow = entry["plot"] or name in SLOW_OPS
-    outcome, res = sc.call(name, entry["build"], rng, t, case, repeat=1 if slow else 2)
+    outcome, res = sc.call(name, entry["build"], rng, t, case, repeat=1 if slow else 2,
+                           trace=(name, seed) in TRACE_TASKS)
     if outcome != "returned" and position > 0:
         # the chain produced something the operation refuses: also run it on the initial triangle
         outcome2, res = sc.call(name, entry["build"], rng, t0, case)
@@ -1086,7 +1227,9 @@ def _work(task):
         case, sc, outcome = run_scenario(mini, name, shape, position, seed, readonly)
         res = {"task": task, "fails": mini.fails, "outcome": outcome, "trace": sc.trace,
                "shape": case["shape"], "chain": case["chain"], "crash": None,
-               "assume": list(ASSUME_VIOLATIONS), "separated": SEPARATION_CHECKS[0]}
+               "assume": list(ASSUME_VIOLATIONS), "separated": SEPARATION_CHECKS[0],
+               "entered": sorted(set(ENTERED)) if (name, seed) in TRACE_TASKS else None}
+        del ENTERED[:]
         del ASSUME_VIOLATIONS[:]
         SEPARATION_CHECKS[0] = 0
     except Exception as e:  # noqa: BLE001  -- harness-side problem, reported as infrastructure
@@ -1367,8 +1510,16 @@ def correspondence(ctx):
     # shapes -- mixed kinds, 2 and 3 slices (>= 3 cells per merged coordinate), every layout, >= 1000 samples,
     # chain positions 0 and 1 -- before the search gives up.
     tasks += targeted_tasks(ctx, rng, names)
+    # one traced scenario per operation (first plain, position-0, non-mixed one) for the ENTRY_POINTS cross-check
+    TRACE_TASKS.clear()
+    traced_ops = set()
+    for (nm, shp, pos_, sd, ro) in tasks:
+        if nm not in traced_ops and pos_ == 0 and not ro and shp[0] in ("scalar", "array"):
+            traced_ops.add(nm)
+            TRACE_TASKS.add((nm, sd))
     # scenarios are independent (own seed each): run them in worker processes, merge in task order
     results = run_tasks(tasks)
+    check_entry_points(ctx, results)
     for i, res in enumerate(results):
         name, shape, position, seed, readonly = res["task"]
         if res["crash"]:
@@ -1445,6 +1596,56 @@ def targeted_tasks(ctx, rng, names):
     return out
 
 
+def check_entry_points(ctx, results):
+    """ENTRY_POINTS (hand-written, trusted): every function the table names for an operation must really be entered
+    when the operation runs. A row none of whose functions is entered is an INFRASTRUCTURE error (the theorem
+    `frame_registry_entry_points` would speak about the wrong functions); partly entered rows (a branch not taken, a
+    cached accessor) are listed in the evidence."""
+    p = translate_c03ir._LAST.get("program")
+    if p is None:
+        return
+    wrong, partial, checked = [], {}, 0
+    for res in results:
+        ent = res.get("entered")
+        if ent is None or res["outcome"] != "returned":
+            continue
+        name = res["task"][0]
+        pats = translate_c03ir.entry_functions(name) or []
+        recs = []
+        for pat in pats:
+            recs += [f for k, f in p.w.fns.items() if (k.endswith(pat) if pat.startswith("@") else k == pat)]
+        if not recs:
+            continue
+        checked += 1
+        seen = set(ent)
+
+        def hit(f):
+            if f.cached and any(rel == f.mod.rel for rel, _, _ in seen):
+                return True          # functools.cache: the wrapper was entered, the body may be a cache hit
+            for rel, co, line in seen:
+                if rel != f.mod.rel:
+                    continue
+                if isinstance(f.node, ast.Lambda):
+                    if co == "<lambda>" and line == f.node.lineno:
+                        return True
+                elif co == f.name:
+                    return True
+            return False
+        missing = sorted({f.key for f in recs if not hit(f)})
+        if len(missing) == len({f.key for f in recs}):
+            wrong.append((name, missing))
+        elif missing:
+            partial[name] = missing
+    ctx.count("entry_points/operations_traced", checked)
+    ctx.count("entry_points/rows_partly_entered", len(partial))
+    if partial:
+        ctx.notes.append("ENTRY_POINTS cross-check: functions named by the table but not entered in the traced scenario "
+                         "(branch not taken / cached accessor): " + json.dumps(partial))
+    if wrong:
+        raise common.Infra("ENTRY_POINTS (translate_c03ir.py) names functions that the registry operation does not "
+                           "enter: " + json.dumps(wrong))
+
+
 def regenerate_tables():
     """both translators, under the build lock (called by common.run_check)"""
     translate_c03.regenerate()
@@ -1475,6 +1676,8 @@ def heapir_report(ctx):
     if unm:
         ctx.notes.append("HeapIR registry operations without an entry-point mapping: " + json.dumps(unm))
     ctx.notes.append("HeapIR trusted summaries: " + json.dumps(translate_c03ir.trusted_summaries(), default=list))
+    ctx.notes.append("HeapIR trusted table ENTRY_POINTS (registry operation -> entry functions; hand-written, cross-checked "
+                     "each run by tracing one scenario per operation): " + json.dumps(translate_c03ir.ENTRY_POINTS))
 
 
 if __name__ == "__main__":
@@ -1495,5 +1698,7 @@ if __name__ == "__main__":
                  "annotation rules (immutable / container of immutables / pd.DataFrame unprotected; 2 assumed "
                  "annotations checked at run time), the boxed representation of attributes, caller-side construction by "
                  "simple constructors and caller-performed return of parameters are listed in the notes of the "
-                 "evidence ('HeapIR trusted summaries'); PARTIAL: the theorems are about the IR programs"],
+                 "evidence ('HeapIR trusted summaries'); the hand-written table ENTRY_POINTS (registry operation -> entry "
+                 "functions) is listed there too and cross-checked by tracing one scenario per operation; PARTIAL: the "
+                 "theorems are about the IR programs"],
     )
